@@ -160,6 +160,12 @@ func memoryOps(p *an.Prog, m *ssa.Function) []storeOp {
 				if f := memMapField(x.Map); f != "" {
 					out = append(out, storeOp{Kind: opWrite, Spaces: []string{memSpace(f)}, In: attr(in), Fn: fn, Key: x.Key, Val: x.Value, Via: "mapupdate " + f})
 				}
+			case *ssa.Store:
+				// a table that keeps its records by pointer (map[K]*rec): a store through the pointer found in the table
+				// is a write of that record, in place
+				if lk, f := tableRecordOf(x.Addr); lk != nil {
+					out = append(out, storeOp{Kind: opWrite, Spaces: []string{memSpace(f)}, In: attr(in), Fn: fn, Key: lk.Index, Val: recordPointer(x.Addr), Via: "store through " + f})
+				}
 			case *ssa.Range:
 				if f := memMapField(x.X); f != "" {
 					out = append(out, storeOp{Kind: opIter, Spaces: []string{memSpace(f)}, In: attr(in), Fn: fn, Via: "range " + f})
@@ -179,6 +185,36 @@ func memoryOps(p *an.Prog, m *ssa.Function) []storeOp {
 		})
 	}
 	return out
+}
+
+// recordPointer: the pointer value an address is rooted at (&ptr.f.g -> ptr).
+func recordPointer(addr ssa.Value) ssa.Value {
+	root, _ := an.RootPath(addr)
+	return root
+}
+
+// tableRecordOf: addr is a field address inside a record reached through a pointer that was looked up in one of the
+// memory driver's tables (v, ok := s.nodes[id]; v.f = ...): returns that lookup and the table's field name.
+func tableRecordOf(addr ssa.Value) (*ssa.Lookup, string) {
+	if _, isFA := addr.(*ssa.FieldAddr); !isFA {
+		return nil, ""
+	}
+	root := recordPointer(addr)
+	if _, isPtr := root.Type().Underlying().(*types.Pointer); !isPtr {
+		return nil, ""
+	}
+	if ex, ok := root.(*ssa.Extract); ok {
+		root = ex.Tuple
+	}
+	lk, ok := root.(*ssa.Lookup)
+	if !ok {
+		return nil, ""
+	}
+	f := memMapField(lk.X)
+	if f == "" {
+		return nil, ""
+	}
+	return lk, f
 }
 
 func memSpace(field string) string {
@@ -857,8 +893,59 @@ func checkKeyOperandTypes(p *an.Prog, r *an.Run) {
 			}
 		}
 	}
+	// ... and every key handed to the database is built from its id by prefixing alone: no text-rewriting call
+	// (strings/bytes/strconv/hex/unicode: ToLower, TrimSpace, Replace, ...) lies between the id and the key. A key space
+	// whose accessors spell the id in two ways holds two records for one identity.
+	if d := badgerDriver(p); d != nil {
+		ms := types.NewMethodSet(types.NewPointer(d))
+		nKeys := 0
+		for i := 0; i < ms.Len(); i++ {
+			m := p.MethodOf(d, ms.At(i).Obj().Name())
+			if m == nil || len(m.Blocks) == 0 {
+				continue
+			}
+			for _, o := range badgerOps(p, m) {
+				if o.Key == nil {
+					continue
+				}
+				nKeys++
+				for _, nd := range p.Derives(3, o.Key).Nodes {
+					c, ok := nd.(*ssa.Call)
+					if !ok {
+						continue
+					}
+					f := an.CallObj(c)
+					if f == nil || f.Pkg() == nil {
+						continue
+					}
+					switch f.Pkg().Path() {
+					case "strings", "bytes", "strconv", "encoding/hex", "unicode", "unicode/utf8", "path", "net/url":
+						if f.Name() == "NewReader" || f.Name() == "HasPrefix" || f.Name() == "Equal" {
+							continue
+						}
+						bad = append(bad, "the key used at "+p.Pos(o.In.Pos())+" ("+an.FuncName(m)+") is spelled through "+f.Pkg().Name()+"."+f.Name()+" ("+p.Pos(c.Pos())+"): the id is rewritten on its way into the key, while other accessors of the same records use it as given")
+					}
+				}
+			}
+		}
+		r.Floor("badger-keys-judged", nKeys, 20)
+	}
 	r.Floor("key-operands", n, 6)
 	r.Check(len(bad) == 0, "key-spelling", "badger", token.NoPos, "every id in a key format is spelled as the id itself", "%s", strings.Join(dedup(bad), "; "))
+}
+
+// badgerDriver returns the store.Store implementation of the badger package.
+func badgerDriver(p *an.Prog) *types.Named {
+	iface := p.Iface("pool/store", "Store")
+	if iface == nil {
+		return nil
+	}
+	for _, d := range p.Implementations(iface) {
+		if driverKind(d) == "badger" {
+			return d
+		}
+	}
+	return nil
 }
 
 // isIdentityStringMethod: the method's only effect is `return string(receiver)`.
